@@ -45,63 +45,45 @@ def roundtrip(raw):
 
 # ------------------------------------------------------------------------------------------- signature predicates
 def fix_analysis(text):
-    """what __fixXmlPart's splice does to this part, decided from the text alone (independent re-statement):
-       None                      nothing is inserted
-       ('dup', prefix)           a declaration is inserted into a start tag that already declares the prefix
-       ('content', where)        the first ' xmlns:' lies outside any start tag / inside an attribute value
-       ('ok',)                   insertions happen, inside a start tag that does not declare those prefixes"""
-    missing = [p for p in REQUESTED if (u' xmlns:' + p) not in text]
-    if not missing:
-        return None
-    pos = text.find(u' xmlns:')
-    if pos < 0:
-        return None
-    # locate pos: scan markup
+    """what __fixXmlPart (as of 4cb8050) does wrong to this part, decided from the text alone (independent
+    re-statement with a quote-aware scan of the document element's start tag):
+       None              nothing harmful
+       ('dup', prefix)   the start tag of the document element has a literal '>' inside an attribute value and declares
+                         `prefix` (one of the nine) AFTER it: the declaration is not seen, a second one is inserted"""
     i = 0; n = len(text)
+    # skip XML declaration, comments, PIs, DOCTYPE in front of the document element
     while i < n:
-        if text.startswith(u'<!--', i):
-            j = text.find(u'-->', i); j = n if j < 0 else j + 3
-            if i <= pos < j: return ('content', 'comment')
-            i = j
-        elif text.startswith(u'<![CDATA[', i):
-            j = text.find(u']]>', i); j = n if j < 0 else j + 3
-            if i <= pos < j: return ('content', 'cdata')
-            i = j
-        elif text.startswith(u'<?', i):
-            j = text.find(u'?>', i); j = n if j < 0 else j + 2
-            if i <= pos < j: return ('content', 'pi')
-            i = j
+        if text.startswith(u'<?', i):
+            j = text.find(u'?>', i); i = n if j < 0 else j + 2
+        elif text.startswith(u'<!--', i):
+            j = text.find(u'-->', i); i = n if j < 0 else j + 3
         elif text.startswith(u'<!', i):
-            j = text.find(u'>', i); j = n if j < 0 else j + 1
-            if i <= pos < j: return ('content', 'doctype')
-            i = j
+            j = text.find(u'>', i); i = n if j < 0 else j + 1
         elif text[i] == u'<':
-            # a tag: walk attributes respecting quotes
-            j = i + 1; q = None; qstart = None
-            while j < n:
-                c = text[j]
-                if q:
-                    if c == q: q = None
-                elif c in u'"\'':
-                    q = c; qstart = j
-                elif c == u'>':
-                    break
-                if j == pos and q:
-                    return ('content', 'attribute-value')
-                j += 1
-            if i <= pos <= j:
-                tag = text[i:j + 1]
-                declared = set(re.findall(u'[ \t\r\n]xmlns:([^ \t\r\n=]+)[ \t\r\n]*=', tag))
-                for p in missing:
-                    if p in declared:
-                        return ('dup', p)
-                return ('ok',)
-            i = j + 1
+            break
         else:
-            j = text.find(u'<', i); j = n if j < 0 else j
-            if i <= pos < j: return ('content', 'text')
-            i = j
-    return ('ok',)
+            i += 1
+    if i >= n:
+        return None
+    # the whole start tag, quotes respected
+    j = i + 1; q = None; first_gt_in_value = None
+    while j < n:
+        ch = text[j]
+        if q:
+            if ch == q: q = None
+            elif ch == u'>' and first_gt_in_value is None: first_gt_in_value = j
+        elif ch in u'"\'':
+            q = ch
+        elif ch == u'>':
+            break
+        j += 1
+    if first_gt_in_value is None:
+        return None
+    after = text[first_gt_in_value:j]
+    for p in REQUESTED:
+        if re.search(u'[ \t\r\n]xmlns:%s[ \t\r\n]*=' % p, after) and not re.search(u'[ \t\r\n]xmlns:%s[ \t\r\n]*=' % p, text[i:first_gt_in_value]):
+            return ('dup', p)
+    return None
 
 
 def style_names(S):
@@ -186,9 +168,7 @@ def compare_doc(rep, src, out, folder, top):
         if b is not None and (folder + part) in src.mdict:
             fa = fix_analysis(b.decode('utf-8'))
             if fa and fa[0] == 'dup':
-                dropped[part] = 'fixxml-duplicate-declaration'
-            elif fa and fa[0] == 'content':
-                dropped[part] = 'fixxml-splice-outside-start-tag'
+                dropped[part] = 'fixxml-gt-in-root-attribute-value'
     for part, e in O.errors.items():
         rep.add('saved-part-not-well-formed', '%s%s: %s' % (folder, part, e))
     def cx(part):
@@ -406,7 +386,7 @@ def gen_cases(chk):
     for f in files:
         if os.path.basename(f) in ('emb_spreadsheet.odp', 'spreadsheet-with-macro.ods'):
             cases.append({'base': 'file:' + f, 'mut': 'object-renumber', 'seed': rng.getrandbits(48)})
-    for w in ('w1', 'w2'):
+    for w in ('w1', 'w2', 'w4'):
         cases.append({'base': 'witness:' + w, 'mut': None, 'seed': 0})
     nsyn = 6 if chk.tier == 'thorough' else 2
     for shape in SHAPES:
@@ -456,6 +436,7 @@ def run(chk, replay=None):
     chk.deep_search = deep
     chk.prove(modules=['OdfModel.Props.C05'], drivers=['drv_load'])
     drv = chk.driver('drv_load')
+    L.correspond_pyspace(chk, drv)
     for rc in cases:
         raw = build_case(rc)
         if raw is None:
